@@ -39,7 +39,7 @@ def run(chk):
                 "{all present, all missing, first/last missing, alternating, random runs}, labels incl. empty / 255 "
                 "chars / every cp1252 char, integer extremes, float specials (+-0, denormals, FLT_MAX, +-inf) and "
                 "random bits; every block is validated by the extracted wfb; observation = extracted fields of "
-                "_build(_write(b)) and bytes of a second _write, compared with the model's dec(enc v); also: blocks built, used (sized / encoded / compared / printed), then edited IN PLACE to another content of the same shape and used again; non-trivial = "
+                "_build(_write(b)) and bytes of a second _write, compared with the model's dec(enc v); also: blocks built, used (sized / encoded / compared / printed), then edited IN PLACE to another content of the same shape and used again; blocks built from arrays with the same values but another memory layout (column-major, strided, reversed, big-endian, read-only, unaligned); non-trivial = "
                 ">=1 item and (a gap or >=2 items)")
     corpus = codec.load_corpus("C01")
     chk.count("corpus", len(corpus))
@@ -48,7 +48,9 @@ def run(chk):
     cases = codec.gen_cases(chk, n, "C01")
     check_cases(chk, cases, "generated")
     check_cases(chk, codec.large_count_cases(chk), "large counts")
+    check_cases(chk, codec.threshold_cases(chk), "thresholds")
     codec.check_inplace(chk, "C01", 200 if chk.tier == "quick" else 3000)
+    codec.check_layouts(chk, "C01", 240 if chk.tier == "quick" else 3000)
     if chk.tier == "thorough":
         # every mask n<=8 on each run-length coded kind (single-track blocks)
         from harness.c05 import mask_cases
